@@ -8,6 +8,9 @@
 #include <orc/orcprogram.h>
 #include <orc/orcutils-private.h>
 #include <orc/orcdebug.h>
+#ifdef ORC_VERIF_HOOKS
+#include <orc/orcverif.h>
+#endif
 
 /**
  * SECTION:orcexecutor
@@ -393,6 +396,9 @@ orc_executor_emulate (OrcExecutor *ex)
 
     for(i=0;i<ex->n;i+=CHUNK_SIZE){
       for(j=0;j<code->n_insns;j++){
+#ifdef ORC_VERIF_HOOKS
+        ORC_VERIF_POINT (ORC_VERIF_PT_EMULATE_STEP);
+#endif
         if (ex->n - i >= CHUNK_SIZE) {
           opcode_ex[j].emulateN (opcode_ex + j, i, CHUNK_SIZE << opcode_ex[j].shift);
         } else {
